@@ -20,10 +20,32 @@ import (
 	"github.com/synnaxlabs/x/errors"
 )
 
+// emitConditionTruthiness converts a condition value that is not carried in an i32
+// register (i64, u64, f32, f64) into the i32 truth value the WASM if instruction
+// expects: non-zero is true.
+func emitConditionTruthiness(w *wasm.Writer, condType types.Type) {
+	if !condType.IsNumeric() {
+		return
+	}
+	switch wasm.ConvertType(condType) {
+	case wasm.I64:
+		w.WriteI64Const(0)
+		w.WriteOpcode(wasm.OpI64Ne)
+	case wasm.F32:
+		w.WriteF32Const(0)
+		w.WriteOpcode(wasm.OpF32Ne)
+	case wasm.F64:
+		w.WriteF64Const(0)
+		w.WriteOpcode(wasm.OpF64Ne)
+	}
+}
+
 func compileIfStatement(ctx context.Context[parser.IIfStatementContext]) (diverged bool, err error) {
-	if _, err = expression.Compile(context.Child(ctx, ctx.AST.Expression())); err != nil {
+	condType, err := expression.Compile(context.Child(ctx, ctx.AST.Expression()))
+	if err != nil {
 		return false, errors.Wrap(err, "failed to compile if condition")
 	}
+	emitConditionTruthiness(ctx.Writer, condType)
 
 	var (
 		hasElseClause = ctx.AST.ElseClause() != nil
@@ -47,10 +69,11 @@ func compileIfStatement(ctx context.Context[parser.IIfStatementContext]) (diverg
 		elseIfCtx := innerCtx
 		for i, elseIfClause := range ctx.AST.AllElseIfClause() {
 			ctx.Writer.WriteElse()
-			_, err := expression.Compile(context.Child(elseIfCtx, elseIfClause.Expression()))
+			elseIfCondType, err := expression.Compile(context.Child(elseIfCtx, elseIfClause.Expression()))
 			if err != nil {
 				return false, errors.Wrapf(err, "failed to compile else-if[%d] condition", i)
 			}
+			emitConditionTruthiness(ctx.Writer, elseIfCondType)
 			ctx.Writer.WriteIf(wasm.BlockTypeEmpty)
 			elseIfCtx = elseIfCtx.EnterBlock()
 			elseIfDiverged, err := CompileBlock(context.Child(elseIfCtx, elseIfClause.Block()))
